@@ -399,3 +399,22 @@ mod tests {
         assert_eq!(config.handle_new_channel(VALID_INDEX, VALID_FREQ, dr), (true, true));
     }
 }
+
+#[cfg(feature = "verif-hooks")]
+impl<R: DynamicChannelRegion> DynamicChannelPlan<R> {
+    pub(crate) fn verif_plan(&self) -> VerifPlan {
+        let mut plan = VerifPlan::default();
+        plan.mask.copy_from_slice(self.channel_mask.as_ref());
+        for (i, c) in self.channels.iter().enumerate() {
+            plan.channels[i] = c.map(|c| {
+                (
+                    c.frequency,
+                    c.dl_frequency,
+                    c._datarates.min_data_rate(),
+                    c._datarates.max_data_rate(),
+                )
+            });
+        }
+        plan
+    }
+}
